@@ -56,8 +56,8 @@ namespace ratio
                             if (!slv.get_lra_theory().set_lb(slv.get_lra_theory().new_var(xpr->l), lb, adaptations.at(atm).sigma_xi))
                             { // setting the lower bound caused a conflict..
                                 swap_conflict(slv.get_lra_theory());
-                                if (!backtrack_analyze_and_backjump())
-                                    throw execution_exception();
+                                if (!backtrack_analyze_and_backjump() || slv.get_sat_core().value(xi) != True)
+                                    throw execution_exception(); // either the problem or its execution has become inconsistent..
                             }
                         }
                         delays = true;
@@ -84,8 +84,8 @@ namespace ratio
                             if (!slv.get_lra_theory().set_lb(slv.get_lra_theory().new_var(xpr->l), lb, adaptations.at(atm).sigma_xi))
                             { // setting the lower bound caused a conflict..
                                 swap_conflict(slv.get_lra_theory());
-                                if (!backtrack_analyze_and_backjump())
-                                    throw execution_exception();
+                                if (!backtrack_analyze_and_backjump() || slv.get_sat_core().value(xi) != True)
+                                    throw execution_exception(); // either the problem or its execution has become inconsistent..
                             }
                         }
                         delays = true;
@@ -94,7 +94,7 @@ namespace ratio
 
             if (delays)
             { // we have some delays: we propagate and remove new possible flaws..
-                if (!slv.get_sat_core().propagate() || !slv.solve())
+                if (!slv.get_sat_core().propagate() || !slv.solve() || slv.get_sat_core().value(xi) != True)
                     throw execution_exception();
                 goto manage_tick;
             }
@@ -123,8 +123,8 @@ namespace ratio
                                     if (!slv.get_lra_theory().set(slv.get_lra_theory().new_var(ai->l), val, adaptations.at(atm).sigma_xi))
                                     { // freezing the arithmetic expression caused a conflict..
                                         swap_conflict(slv.get_lra_theory());
-                                        if (!backtrack_analyze_and_backjump())
-                                            throw execution_exception();
+                                        if (!backtrack_analyze_and_backjump() || slv.get_sat_core().value(xi) != True)
+                                            throw execution_exception(); // either the problem or its execution has become inconsistent..
                                     }
                                 }
                             }
@@ -161,8 +161,8 @@ namespace ratio
                             if (!slv.get_lra_theory().set(slv.get_lra_theory().new_var((*at).l), val, adaptations.at(atm).sigma_xi))
                             { // freezing the arithmetic expression caused a conflict..
                                 swap_conflict(slv.get_lra_theory());
-                                if (!backtrack_analyze_and_backjump())
-                                    throw execution_exception();
+                                if (!backtrack_analyze_and_backjump() || slv.get_sat_core().value(xi) != True)
+                                    throw execution_exception(); // either the problem or its execution has become inconsistent..
                             }
                         }
                     }
@@ -185,8 +185,8 @@ namespace ratio
                             if (!slv.get_lra_theory().set(slv.get_lra_theory().new_var((*end).l), val, adaptations.at(atm).sigma_xi))
                             { // freezing the arithmetic expression caused a conflict..
                                 swap_conflict(slv.get_lra_theory());
-                                if (!backtrack_analyze_and_backjump())
-                                    throw execution_exception();
+                                if (!backtrack_analyze_and_backjump() || slv.get_sat_core().value(xi) != True)
+                                    throw execution_exception(); // either the problem or its execution has become inconsistent..
                             }
                         }
                     }
@@ -211,7 +211,7 @@ namespace ratio
         for (const auto &atm : atoms)
             cnfl.push_back(lit(atm->get_sigma(), false));
         // we backtrack to a level at which we can analyze the conflict..
-        if (!backtrack_analyze_and_backjump() || !slv.solve())
+        if (!backtrack_analyze_and_backjump() || !slv.solve() || slv.get_sat_core().value(xi) != True)
             throw execution_exception();
     }
 
@@ -238,21 +238,23 @@ namespace ratio
 
     void executor::solution_found()
     {
-        switch (slv.get_sat_core().value(xi))
-        {
-        case False: // the plan can't be executed anymore..
-            throw execution_exception();
-        case Undefined: // we enforce the xi variable..
-            slv.take_decision(xi);
-            break;
-        }
-        switch (slv.get_sat_core().value(xi))
-        {
-        case False: // the plan can't be executed anymore..
-            throw execution_exception();
-        case Undefined: // we attempt to solve the problem again..
+        // notice that this notification comes from within a 'noexcept' context: in case the plan cannot be executed anymore the timelines are emptied, and 'tick' and 'failure', which check the xi variable, throw the exception..
+        if (slv.get_sat_core().value(xi) == Undefined)
+            try
+            { // we enforce the xi variable..
+                slv.take_decision(xi);
+            }
+            catch (const unsolvable_exception &)
+            {
+                inconsistent_problem();
+                return;
+            }
+        if (slv.get_sat_core().value(xi) == Undefined) // we attempt to solve the problem again..
             slv.solve();
-            break;
+        if (slv.get_sat_core().value(xi) != True)
+        { // the plan can't be executed anymore..
+            inconsistent_problem();
+            return;
         }
         build_timelines();
     }
